@@ -55,7 +55,7 @@ type jobResult struct {
 // next run, if a full job doesn't get one, we assume it is waiting for an incr job to finnish, so it gets postponed for
 // 5s
 func (j *job) Run() {
-	verifhook.Go(j.runner, "job.run")
+	verifhook.Go(j, "job.run")
 	ticket := j.runner.raffle.borrowTicket(j)
 	if ticket == nil {
 		if j.pipeline.isFullSync() { // reschedule to try again in a bit
@@ -85,7 +85,7 @@ func (j *job) Run() {
 		return
 	}
 
-	verifhook.FaultOn(j.runner, "job.afterBorrow", j.id)
+	verifhook.FaultOn(j.runner, "job.afterBorrow", j)
 	// attach error handlers
 	var pipelineErr error
 	j.instrumentErrorHandling()
@@ -94,7 +94,7 @@ func (j *job) Run() {
 	}()
 
 	defer j.runner.raffle.returnTicket(ticket)
-	defer verifhook.FaultOn(j.runner, "job.beforeReturn", j.id)
+	defer verifhook.FaultOn(j.runner, "job.beforeReturn", j)
 	msg := "job"
 	if j.isEvent {
 		msg = "event"
@@ -170,7 +170,7 @@ func (j *job) Run() {
 	}
 	// its not really a problem to ignore this error
 	_ = j.runner.store.StoreObject(server.JobResultIndex, j.id, lastRun)
-	verifhook.FaultOn(j.runner, "job.afterResult", j.id)
+	verifhook.FaultOn(j.runner, "job.afterResult", j)
 }
 
 var retryJobIds sync.Map
@@ -184,7 +184,7 @@ func queueRetry(duration time.Duration, j *job) bool {
 		return false
 	}
 	go func() {
-		verifhook.Go(j.runner, "job.retry")
+		verifhook.Go(j, "job.retry")
 		time.Sleep(duration)
 		retryJobIds.Delete(j.id)
 		jobrunner.New(j).Run()
